@@ -39,7 +39,7 @@ ASSUMPTIONS = [
     'a message element with no children at all (not schema-valid) may classify as its class or as UnknownMosFileType',
     'damaged texts on which ElementTree raises something other than ParseError are not generated',
 ]
-MANDATORY = ['decorated', 'utf8-bom', 'namespaced', 'attributes', 'filter:error', 'source:bytes', 'source:file', 'encoding:latin1', 'encoding:utf16', 'encoding:utf16be', 'ea-shape:unlisted', 'ea-shape:listed',
+MANDATORY = ['source:relfile', 'decorated', 'utf8-bom', 'namespaced', 'attributes', 'filter:error', 'source:bytes', 'source:file', 'encoding:latin1', 'encoding:utf16', 'encoding:utf16be', 'ea-shape:unlisted', 'ea-shape:listed',
              'ea-op:unknown', 'ea-op:missing', 'ea-source:absent', 'malformed', 'unknown-root',
              'nested-decoy', 'envelope-permuted', 'plain-tag']
 
@@ -107,7 +107,7 @@ def _tmp():
 def classify(text, source='str', filt='default'):
     """-> outcome name (class name or exception type name) and site."""
     with warnings.catch_warnings():
-        warnings.simplefilter('error' if filt == 'error' else 'default')
+        warnings.simplefilter('error' if filt == 'error' else ('ignore' if filt == 'ignore' else 'default'))
         try:
             if source == 'str':
                 mo = MosFile.from_string(text)
@@ -117,6 +117,16 @@ def classify(text, source='str', filt='default'):
                 mo = MosFile.from_string(b'\xef\xbb\xbf' + text.encode('utf-8'))
             elif source.startswith('bytes:'):
                 mo = MosFile.from_string(encoded(text, source.split(':')[1]))
+            elif source == 'relfile':
+                # named relative to the current directory, editor-backup style
+                old = os.getcwd()
+                os.chdir(_tmp())
+                try:
+                    with open('~$doc.mos.xml', 'wb') as f:
+                        f.write(text.encode('utf-8'))
+                    mo = MosFile.from_file('~$doc.mos.xml')
+                finally:
+                    os.chdir(old)
             else:
                 path = os.path.join(_tmp(), 'doc.mos.xml')
                 with open(path, 'wb') as f:
@@ -198,6 +208,8 @@ def record_doc(col, text, classes, sources=('str', 'bytes', 'file'), filters=('d
         for enc in ENCODINGS:
             if encodable(text, enc):
                 sources += [f'bytes:{enc}', f'file:{enc}']
+    if 'file' in sources and h64(text) % 4 == 0:
+        sources.append('relfile')
     for source in sources:
         for filt in filters:
             case = {'doc': text, 'source': source, 'filter': filt}
